@@ -341,9 +341,9 @@ func init() {
 		Assumptions: []string{"uax29 and x/text NFKC are the trusted tokeniser (called directly by the oracle, not through comet's wrappers)", "float32 score vs float64 reference within 1e-5 relative", "re-adding a removed id is judged by C06"},
 		Shards: func(tier string) []vShard {
 			var sh []vShard
-			depth, nids := 4, 3
+			depth, nids := 5, 3
 			if tier == "thorough" {
-				depth = 5
+				depth = 6
 			}
 			// shard by the first text
 			for t0 := range vC03Texts {
